@@ -240,7 +240,8 @@ RespFramedAnySize(framing, f) ==
 TrailingBytesTCP(f) ==
     /\ Len(f) >= 10 /\ 6 + MBAPLen(f) < Len(f) /\ 6 + MBAPLen(f) >= 9
     /\ LET g == SubSeq(f, 1, 6 + MBAPLen(f)) IN
-          TCPFramed(g) /\ g[8] \in {1, 2, 3, 4, 23} /\ DecodeRespPDU(g[7], SubSeq(g, 8, Len(g))).ok
+          TCPFramed(g) /\ \/ g[8] \in {1, 2, 3, 4, 23} /\ DecodeRespPDU(g[7], SubSeq(g, 8, Len(g))).ok
+                          \/ Len(g) = 9 /\ g[8] >= 128          \* an exception frame followed by stray bytes
 
 ClassifyResp(framing, f) ==
     IF framing = "tcp" /\ TrailingBytesTCP(f) THEN [kind |-> "mismatch"]
